@@ -25,13 +25,23 @@ func guarded(timeout time.Duration, f func() string) (res string) {
 		}()
 		done <- f()
 	}()
+	if hangCount.Load() >= maxHangs {
+		return "SKIPPED-AFTER-HANGS"
+	}
 	select {
 	case s := <-done:
 		return s
 	case <-time.After(timeout):
+		hangCount.Add(1)
 		return "HANG"
 	}
 }
+
+// After a few hangs the rest of a run is skipped: every hung call keeps a goroutine
+// spinning, and the violation is already established.
+var hangCount atomic.Int32
+
+const maxHangs = 6
 
 func firstFrames(st string) string {
 	lines := strings.Split(st, "\n")
